@@ -64,6 +64,10 @@ init_mb_mgr_avx512(IMB_MGR *state)
 {
         init_mb_mgr_avx512_internal(state, 1);
 
+        /* no manager or manager not initialised (missing CPU features): nothing to self-test */
+        if (state == NULL || state->imb_errno != 0)
+                return;
+
         if (!self_test(state))
                 imb_set_errno(state, IMB_ERR_SELFTEST);
 }
